@@ -151,6 +151,8 @@ void run(size_t idx) {
 		std::string vclass = hin.ok ? fmt("stream%u", hin.stream) : "?";
 		if (rc != 0) { R_viol("load-rejected", vclass, e.name + fmt(": file with re-labelled types {%s} is rejected (rc=%d)", relabelled.c_str(), rc)); return; }
 		if (!n.HasUnknown()) { R_viol("has-unknown-flag", vclass, e.name + ": HasUnknown() is false although types {" + relabelled + "} are unknown"); }
+		std::unique_ptr<NifFile> fwdCopy;
+		if (idx % 5 == 2) fwdCopy = std::make_unique<NifFile>(n);
 		R_phase(raw ? "save:raw" : "save:default");
 		std::string out = saveNif(n, raw);
 		indep::Header ho = indep::parse(out);
@@ -179,13 +181,44 @@ void run(size_t idx) {
 															   k < ho.strings.size() ? ho.strings[k].c_str() : "<missing>", hin.strings.size(), ho.strings.size()));
 			continue;
 		}
+		if (fwdCopy) {
+			// the same model written to a stream that cannot seek (pipe, socket, compressing filter): the writer cannot go back to the size
+			// table, so it shows what the header holds at the time it is written. For the opaque blocks that is the declared size of the
+			// input; everything outside the size table is the same file. (Entries of known blocks are not judged here.)
+			R_phase("save:forward-only-stream");
+			struct FwdBuf : std::streambuf {
+				std::string data;
+				int_type overflow(int_type ch) override { if (ch != traits_type::eof()) data.push_back((char)ch); return ch; }
+				std::streamsize xsputn(const char* p, std::streamsize k) override { data.append(p, (size_t)k); return k; }
+			} fb;
+			std::ostream fs(&fb);
+			NifSaveOptions o;
+			if (raw) { o.optimize = false; o.sortBlocks = false; }
+			fwdCopy->Save(fs, o);
+			const std::string& f = fb.data;
+			R_eval();
+			R_stat("models_written_to_a_forward_only_stream");
+			size_t t0 = ho.sizeTablePos, t1 = ho.sizeTablePos + 4 * (size_t)ho.numBlocks;
+			if (f.size() != out.size() || f.compare(0, t0, out, 0, t0) != 0 || f.compare(t1, std::string::npos, out, t1, std::string::npos) != 0)
+				R_viol("forward-only-stream", std::string(mn) + "/file-differs", e.name + fmt(" {%s}: written to a stream that cannot seek the file differs from the seekable one outside the size table (%zu vs %zu bytes)", relabelled.c_str(), f.size(), out.size()));
+			else
+				for (size_t i = 0; i < hin.numBlocks; i++) {
+					bool unk = hin.typeIndex[i] < 64 ? ((c.mask >> hin.typeIndex[i]) & 1) : false;
+					if (c.emptyExtra && hin.typeOf(i) == "XqEmptyMarker") unk = true;
+					if (!unk) continue;
+					uint32_t declared = 0;
+					memcpy(&declared, f.data() + t0 + 4 * i, 4);
+					R_stat("unknown_blocks_compared");
+					if (declared != hin.sizes[i]) { R_viol("forward-only-stream", std::string(mn) + "/unknown-size", e.name + fmt(" {%s}: written to a stream that cannot seek, unknown block %zu (%s) declares %u bytes, the input declared %u", relabelled.c_str(), i, hin.typeOf(i).c_str(), declared, hin.sizes[i])); break; }
+				}
+		}
 		R_cover(fmt("%zu/%llx/%d/%d", c.file, (unsigned long long)c.mask, mode, c.emptyExtra));
 	}
 	if (idx % 997 == 0) R_sample(fmt("{\"file\":\"%s\",\"types\":%zu,\"relabelled\":\"%s\",\"blocks\":%u}", jesc(e.name).c_str(), e.h.types.size(), jesc(relabelled).c_str(), e.h.numBlocks));
 }
 
 MonReg reg({"C03", "exploration",
-			"files with a size table (20.2.0.5+): real samples, normal forms of synthesised files (FO3..SF, rotating focus types), API-built models and FO3 models whose NiSourceTexture file names the loader's path clean-up rewrites. The model reaches the saved object by a rotating route: fresh load, load into a used object, copy construction, assignment over a used object. An independent header writer renames a "
+			"files with a size table (20.2.0.5+): real samples, normal forms of synthesised files (FO3..SF, rotating focus types), API-built models and FO3 models whose NiSourceTexture file names the loader's path clean-up rewrites. The model reaches the saved object by a rotating route: fresh load, load into a used object, copy construction, assignment over a used object; a fifth of the cases is also written to a stream that cannot seek (declared sizes of the opaque blocks and every byte outside the size table as in the seekable file). An independent header writer renames a "
 			"set of type-table entries to names the library does not know; every non-empty subset when the table has <= 6 (quick) / 9 (thorough) entries, otherwise every singleton, the full "
 			"set and seeded random subsets. Oracle on the raw-saved and default-saved output, parsed by the independent reader: same block count, same type name at every index, identical "
 			"declared size and payload bytes for every re-labelled block, HasUnknown() set, input string table is a prefix of the output's. Non-trivial = subset that passes all comparisons.",
